@@ -353,11 +353,27 @@ where
             }
             52..=57 => pending.push(Call::MulAdd(pick(rng, &ids), pick(rng, &ids), pick(rng, &ids))),
             58..=65 => {
-                // Horner steps; often a second step sharing (alpha, p_at_z, p_at_x)
-                let (acc, al, pz, px) = (pick(rng, &ids), pick(rng, &ids), pick(rng, &ids), pick(rng, &ids));
-                pending.push(Call::Horner(acc, al, pz, px));
-                if rng.chance(1, 3) {
-                    pending.push(Call::Horner(pick(rng, &ids), al, pz, px));
+                if rng.chance(1, 6) {
+                    // free-form steps (arbitrary accumulator): since the `HornerAccNotChained`
+                    // validation these are build errors unless they happen to be chained
+                    let (acc, al, pz, px) = (pick(rng, &ids), pick(rng, &ids), pick(rng, &ids), pick(rng, &ids));
+                    pending.push(Call::Horner(acc, al, pz, px));
+                    if rng.chance(1, 3) {
+                        pending.push(Call::Horner(pick(rng, &ids), al, pz, px));
+                    }
+                } else {
+                    // a chain: accumulator 0 (expression 0 is the zero constant), then each step
+                    // takes the previous step's result (marker u32::MAX); alpha is mostly shared
+                    // (packed rows need one `b`), the first step's operands are sometimes reused
+                    // (de-duplication of steps, shared prefixes)
+                    let len = rng.range(1, 6);
+                    let al = pick(rng, &ids);
+                    let (pz0, px0) = (pick(rng, &ids), pick(rng, &ids));
+                    for j in 0..len {
+                        let alj = if rng.chance(1, 8) { pick(rng, &ids) } else { al };
+                        let (pz, px) = if j == 0 || rng.chance(1, 10) { (pz0, px0) } else { (pick(rng, &ids), pick(rng, &ids)) };
+                        pending.push(Call::Horner(if j == 0 { 0 } else { u32::MAX }, alj, pz, px));
+                    }
                 }
             }
             66..=69 => pending.push(Call::Sel(pick(rng, &ids), pick(rng, &ids), pick(rng, &ids))),
@@ -554,6 +570,7 @@ where
                     fix(a, &last);
                     fix(bb, &last);
                 }
+                Call::Horner(acc, ..) => fix(acc, &last),
                 _ => {}
             }
             if let Some(v) = extra_pub.take() {
@@ -719,6 +736,20 @@ pub fn ops_only_assignment_adv<F: Field + PrimeField64>(
     priv_slots: &[(u32, F)],
     perturb_io: bool,
 ) -> Option<Vec<F>> {
+    ops_only_assignment_mode(c, pubs, priv_slots, perturb_io, false)
+}
+
+/// As above; with `air_horner` a HornerAcc step takes its accumulator the way the ALU *table*
+/// does — the previous ALU op's output when that op is a HornerAcc step too, zero otherwise (a
+/// chain starts after a separator row) — instead of reading its `acc` operand.
+pub fn ops_only_assignment_mode<F: Field + PrimeField64>(
+    c: &Circuit<F>,
+    pubs: &[F],
+    priv_slots: &[(u32, F)],
+    perturb_io: bool,
+    air_horner: bool,
+) -> Option<Vec<F>> {
+    let mut prev_horner_out: Option<WitnessId> = None;
     let n = c.witness_count as usize;
     let mut w: Vec<Option<F>> = vec![None; n];
     let set = |w: &mut Vec<Option<F>>, i: WitnessId, v: F| -> bool {
@@ -798,13 +829,21 @@ pub fn ops_only_assignment_adv<F: Field + PrimeField64>(
                         }
                     }
                     AluOpKind::HornerAcc => {
-                        let acc = g(&w, (*intermediate_out)?)?;
+                        let acc = if air_horner {
+                            match prev_horner_out {
+                                Some(p) => g(&w, p)?,
+                                None => F::ZERO,
+                            }
+                        } else {
+                            g(&w, (*intermediate_out)?)?
+                        };
                         let r = acc * g(&w, *b)? + g(&w, (*cc)?)? - g(&w, *a)?;
                         if !set(&mut w, *out, r) {
                             return None;
                         }
                     }
                 }
+                prev_horner_out = if *kind == AluOpKind::HornerAcc { Some(*out) } else { None };
             }
             Op::Hint { inputs, outputs, executor } => {
                 // hints carry no relation; honest values are used unless the slot is already set
